@@ -190,12 +190,19 @@ class SmtpSession(object):
         self.envelope.parse(data)
 
         results = self.handoff(self.envelope)
-        if isinstance(results[0][1], QueueError):
+        # Queue policies may have split the message: it is only accepted if
+        # every resulting envelope was.
+        result = results[0][1]
+        for _, other_result in results:
+            if isinstance(other_result, (QueueError, RelayError)):
+                result = other_result
+                break
+        if isinstance(result, QueueError):
             default_reply = Reply('451', '4.3.0 Error queuing message')
-            queue_reply = getattr(results[0][1], 'reply', default_reply)
+            queue_reply = getattr(result, 'reply', default_reply)
             reply.copy(queue_reply)
-        elif isinstance(results[0][1], RelayError):
-            relay_reply = results[0][1].reply
+        elif isinstance(result, RelayError):
+            relay_reply = result.reply
             reply.copy(relay_reply)
         else:
             reply.message = '2.6.0 Message accepted for delivery'
